@@ -28,7 +28,6 @@ theorem Inv00.chSet_remove {ex : Var → Prop} {s : St} (hi : Inv00 ex s) (k : K
   · intro o; rw [f6]; exact hi.ring_nodup o
   · intro v hv o; rw [f6]; exact hi.ex_out v hv o
   · intro d'; rw [f11, f1]; exact hi.cur_lt d'
-  · intro m; rw [f3, f2, f7, f8]; exact hi.mem_par m
   · intro b m; rw [f8, f3, f2, f7]; exact hi.kids_ok b m
   · intro b; rw [f8]; exact hi.kids_nodup b
   · intro k' d' c hc
